@@ -72,8 +72,8 @@ func (e *Env) RunKessoku(dir string, args ...string) (int, string) {
 	// GOMAXPROCS=2 for the CLI and the `go list` children it starts: many small processes in parallel
 	// run ~2x faster this way (measured); it does not change what they compute.
 	// (the CLI's package loader compiles export data for every package it is pointed at: tens of thousands of
-	// throw-away packages per corpus; they go to the bulk cache, which is reset regularly, not to the user's)
-	cmd.Env = BulkGoEnv("GOMAXPROCS=2")
+	// throw-away packages per corpus; they go to a cache private to this process, emptied in between and removed at exit, not to the user's)
+	cmd.Env = GoEnv("GOCACHE="+CLICache(), "GOMAXPROCS=2")
 	var stderr bytes.Buffer
 	cmd.Stderr = &stderr
 	cmd.Stdout = &stderr
@@ -300,17 +300,27 @@ func (e *Env) BuildCorpus(tier string) *Corpus {
 		fmt.Printf("SETUP-FAILED: errgroup shim: %v\n", err)
 		os.Exit(2)
 	}
-	// 1. emit and generate
-	Parallel(len(c.Items), 32, func(i int) {
-		it := c.Items[i]
-		dir := filepath.Join(c.Dir, "o", it.Pkg)
-		must(os.MkdirAll(dir, 0o755))
-		must(os.WriteFile(filepath.Join(dir, "p.go"), []byte(it.Decl.Emit(it.Pkg)), 0o644))
-		it.GenExit, it.GenErr = e.RunKessoku(dir, "-l", "error", "p.go")
-		if _, err := os.Stat(filepath.Join(dir, "p_band.go")); err == nil {
-			it.HasBand = true
+	// 1. emit and generate, in chunks: the CLI's package loader leaves export data for every package it is pointed
+	// at in its build cache (about 1 MB per declaration); that cache is private to this process and emptied after
+	// every chunk, so its size stays bounded whatever the size of the corpus
+	const chunk = 3000
+	for lo := 0; lo < len(c.Items); lo += chunk {
+		hi := lo + chunk
+		if hi > len(c.Items) {
+			hi = len(c.Items)
 		}
-	})
+		Parallel(hi-lo, 32, func(j int) {
+			it := c.Items[lo+j]
+			dir := filepath.Join(c.Dir, "o", it.Pkg)
+			must(os.MkdirAll(dir, 0o755))
+			must(os.WriteFile(filepath.Join(dir, "p.go"), []byte(it.Decl.Emit(it.Pkg)), 0o644))
+			it.GenExit, it.GenErr = e.RunKessoku(dir, "-l", "error", "p.go")
+			if _, err := os.Stat(filepath.Join(dir, "p_band.go")); err == nil {
+				it.HasBand = true
+			}
+		})
+		ResetCLICache()
+	}
 	// 2. instrument
 	Parallel(len(c.Items), 16, func(i int) {
 		it := c.Items[i]
@@ -387,6 +397,12 @@ func (e *Env) BuildCorpus(tier string) *Corpus {
 	}
 	b, _ = json.Marshal(c.Items)
 	must(os.WriteFile(index, b, 0o644))
+	if len(c.Items) > 30000 {
+		// a thorough corpus leaves tens of gigabytes of objects of throw-away packages in the bulk cache; the runner
+		// binaries are linked, nothing needs them any more
+		_ = os.RemoveAll(BulkCache)
+		_ = os.MkdirAll(BulkCache, 0o755)
+	}
 	return c
 }
 
